@@ -8,6 +8,7 @@ mod rng;
 mod scen_buf;
 mod scen_exec;
 mod scen_grid;
+mod scen_loops;
 mod scen_prog;
 mod scen_stack;
 mod stategen;
@@ -62,6 +63,7 @@ fn main() {
                     &mut out,
                 ),
                 "steps" => scen_prog::run_steps(seed, tier, args.get(5).map(|s| s.as_str()).unwrap_or("*"), &mut out),
+                "loops" => scen_loops::run(seed, tier, &mut out),
                 "run" => scen_prog::run_runs(seed, tier, &mut out),
                 "buf" => scen_buf::run(seed, tier, &mut out),
                 "buf-exh" => {
